@@ -52,10 +52,14 @@ def gen_cases(rng, quick, maxl):
             cases.append(dict(maxLB=maxl, maxLU=maxl, ecp=U, A=A, B=B, kind=list(kind)))
     # smaller engines (other table sizes), same shell on both sides, far / tight / diffuse shells
     for (mb, mu) in ((2, 3), (3, 1)) if quick else ((1, 1), (2, 3), (3, 1), (3, 5), (4, 2)):
-        for _ in range(3 if quick else 8):
+        for i_ in range(3 if quick else 8):
             LA, LB = rng.randint(0, mb), rng.randint(0, mb)
             C = [rng.uniform(-1, 1) for _ in range(3)]
             kind = rng.choice(KINDS)
+            if i_ == 0:
+                # the largest pair the engine supports, both shells off the ECP: the local part then needs Bessel orders up to LA + LB,
+                # beyond maxLB + maxLU when the ECP's own angular momentum is small (tables sized from the wrong sum show only here)
+                LA, LB, kind = mb, mb, ("general", "general")
             cases.append(dict(maxLB=mb, maxLU=mu, ecp=pl.rand_ecp(rng, rng.randint(1, mu), C), A=pl.rand_shell(rng, LA, pl.place(rng, C, kind[0])),
                               B=pl.rand_shell(rng, LB, pl.place(rng, C, kind[1])), kind=list(kind)))
     for _ in range(6 if quick else 40):
